@@ -337,6 +337,63 @@ def gen_handle_histories(rng, tier):
     return out
 
 
+def gen_boundary_histories(rng, tier):
+    """container readers that hit an error EXACTLY at a block boundary (the end-of-block transition: decompressor closed,
+    16-byte sync marker read and compared) and are then used again / moved / outlived by a schema clone / dropped:
+    corrupt sync marker of a middle or of the last block, file cut inside a sync marker (I/O error), a block announcing one
+    object less than it holds (data left in the block when it is closed) -- over readers that OWN something with drop glue:
+    Cursor<Vec<u8>>, std::io::BufReader over it, a drop-counting BufRead (counted: the harness reports how many times each
+    was dropped: exactly once), and the compressed codecs (the streaming decompressor owns heap state). A double drop or a
+    use of moved-out state is a drop count != 1 natively and a Miri report."""
+    out = []
+    codecs = ["deflate", "snappy", "null"]
+    modes = ["counted", "stdbuf", "cursor", "bufread", "slice"]
+    n, per = 4, 2
+    def corruptions():
+        return [("flipsync-mid", "(flipsync 0 %d)" % rng.randrange(16), 2), ("flipsync-last", "(flipsync 1 %d)" % rng.randrange(16), 4),
+                ("truncsync-mid", "(truncsync 0 %d)" % rng.randrange(16), 2), ("truncsync-last", "(truncsync 1 %d)" % rng.randrange(1, 16), 4),
+                ("lesscount-mid", "(lesscount 0)", 1), ("lesscount-last", "(lesscount 1)", 3),
+                ("flip-tail", "(flip %d)" % rng.randrange(16), 4), ("trunc-tail", "(trunc %d)" % rng.randrange(1, 16), 4)]
+    conts = ["drop", "read-again", "clone-outlives", "move-read", "leave", "read-again-clone"]
+    plans = []
+    if tier == "quick":
+        k = rng.randrange(100)
+        for ci, codec in enumerate(codecs):
+            for (ck, csx, nread) in corruptions():
+                k += 1
+                # the owning readers get most of the plans; every (codec, mode) pair and every continuation comes up
+                mode = modes[k % 3] if (k // 3) % 3 else modes[k % 5]
+                plans.append((codec, mode, ck, csx, nread, conts[k % len(conts)], k % 3))
+    else:
+        for codec in codecs:
+            for mode in modes:
+                for (ck, csx, nread) in corruptions():
+                    for cont_ in conts:
+                        plans.append((codec, mode, ck, csx, nread, cont_, rng.randrange(3)))
+    for idx, (codec, mode, ck, csx, nread, cont_, k) in enumerate(plans):
+        h = Hist("bnd-%d-%s-%s-%s-%s" % (idx, codec, mode, ck, cont_), "reader-error-at-block-boundary")
+        f = h.file(k, codec, n, per, csx)
+        h.open(0, f, mode)
+        for i in range(nread):
+            h.read(0, "owned", r"\(some %d eq\)" % i)
+        h.read(0, "owned", r"err")                      # the error at the end-of-block transition
+        s = 0
+        if cont_ == "drop":
+            h.drop(0)
+        elif cont_ == "read-again":
+            h.read(0, "owned", r"none|err"); h.read(0, "owned", r"none|err"); h.drop(0)
+        elif cont_ == "clone-outlives":
+            h.clone(0, 1); h.drop(0); h.ser(1, k, 2); h.info(1); h.drop(1)
+        elif cont_ == "move-read":
+            h.move(0, 2, rng.choice(["box", "vec"])); h.read(2, "owned", r"none|err"); h.drop(2)
+        elif cont_ == "read-again-clone":
+            h.read(0, "owned", r"none|err"); h.clone(0, 3); h.read(0, "owned", r"none|err"); h.drop(0); h.ser(3, k, 1); h.drop(3)
+        else:
+            h.ser(0, k, 1)                              # the reader is dropped with the slot table at the end of the history
+        out.append(h)
+    return out
+
+
 def gen_random_history(rng, idx):
     """random walk over the handle machine (valid operations, now and then one the borrow checker would reject)"""
     h = Hist("rnd-%d" % idx, "random")
@@ -400,7 +457,7 @@ def gen_random_history(rng, idx):
 def generate(ctx):
     rng = random.Random(ctx["seed"] * 1000003 + 10)
     tier = "thorough" if ctx.get("focus") else ctx["tier"]
-    hs = gen_freeze_histories(rng, tier) + gen_handle_histories(rng, tier)
+    hs = gen_freeze_histories(rng, tier) + gen_handle_histories(rng, tier) + gen_boundary_histories(rng, tier)
     n_random = 40 if tier == "quick" else 1500
     hs += [gen_random_history(rng, i) for i in range(n_random)]
     hs.append(gen_known_finding())
@@ -417,7 +474,15 @@ def split_results(line):
     kept = None
     if toks and toks[-1].startswith("(kept"):
         kept = toks.pop()
+    if toks and toks[-1].startswith("(drops"):
+        kept = toks.pop() + " " + (kept or "")      # drop counts of the `counted` readers (see drop_counts)
     return p[1], toks, kept
+
+
+def drop_counts(kept):
+    """-> the drop counts the harness reports for the drop-counting readers of a history ([] if there was none)"""
+    m = re.match(r"\(drops([ \d]*)\)", kept or "")
+    return [int(x) for x in m.group(1).split()] if m else []
 
 
 def build_native():
@@ -427,6 +492,29 @@ def build_native():
         open(lock, "w").write(open(src).read())
     rc, so, se = C.sh(["cargo", "build", "--release", "--offline"], cwd=MIRI_DIR, timeout=1800)
     return rc == 0, so + se
+
+
+def drop_foreign_miri_job():
+    """`cargo miri run` interprets the crate from the directory recorded in target/miri/<triple>/debug/avromiri (a job file,
+    not a binary). A target directory that was copied along with the framework still names the directory it was built in,
+    and cargo, finding its fingerprints fresh, would keep replaying THAT harness_miri: such a job file is removed (with its
+    fingerprint), so that the warm build writes it again for this directory."""
+    import glob, json, shutil
+    for job in glob.glob(os.path.join(MIRI_DIR, "target", "miri", "*", "debug", "avromiri")):
+        try:
+            cd = json.load(open(job))["RunWith"]["current_dir"]
+            cd = bytes(cd["Unix"]).decode() if isinstance(cd, dict) else str(cd)
+        except Exception:
+            continue
+        if os.path.realpath(cd) != os.path.realpath(MIRI_DIR):
+            dbg = os.path.dirname(job)
+            for f in glob.glob(os.path.join(dbg, ".fingerprint", "avromiri-*")) + glob.glob(os.path.join(dbg, "incremental", "avromiri-*")):
+                shutil.rmtree(f, ignore_errors=True)
+            for f in glob.glob(os.path.join(dbg, "avromiri*")) + glob.glob(os.path.join(dbg, "deps", "avromiri-*")):
+                try:
+                    os.remove(f)
+                except OSError:
+                    pass
 
 
 def miri_env(seed=None):
@@ -541,6 +629,9 @@ def run(ctx):
         nat[h.id] = (l, toks, kept)
         if hid != h.id or len(toks) != len(h.ops):
             violations.append({"impl_case": h.line(), "what": "native replay: malformed / panicking result", "impl": l[:400], "class": h.cls})
+        elif any(c != 1 for c in drop_counts(kept)):
+            violations.append({"impl_case": h.line(), "what": "a BufRead given to Reader::from_reader was dropped %s times (every reader handed over must be dropped exactly once, "
+                               "whatever errors the history went through)" % drop_counts(kept), "impl": l[:400], "class": h.cls})
     # model predictions
     n_model_ops = 0
     for h in hists:
@@ -570,6 +661,7 @@ def run(ctx):
                 violations.append({"impl_case": h.line(), "what": "op %d %s: expected %s, got %s (native)" % (i, text, strict, t), "class": h.cls})
     # Miri
     t1 = time.time()
+    drop_foreign_miri_job()
     C.sh(["cargo", "+nightly", "miri", "run", "--offline", "-q"], cwd=MIRI_DIR, env=miri_env(), inp="", timeout=1800)   # warm build
     jobs = 12
     mouts, reports = run_miri_parallel(lines, jobs)
@@ -613,7 +705,10 @@ def run(ctx):
             "rule": "histories of the handle machine (graphs with dangling keys at every position incl. unreachable nodes, idx = len / > len, "
                     "freeze error at every node, unions in unreachable nodes; frozen schema moved through Box / Vec; Arc cloned / dropped before, "
                     "while and after a container Reader (null, deflate, snappy; slice, Cursor, BufRead) reads; reader moved between reads; "
-                    "reader dropped before / after the schema clone; corrupt files; configs alive across other handles' drops; scoped threads "
+                    "reader dropped before / after the schema clone; corrupt files; readers failing exactly at a block boundary (corrupt sync marker of a middle / the "
+                    "last block, file cut inside a sync marker, a block announcing one object less than it holds; null / deflate / snappy) over owning sources "
+                    "(Cursor<Vec<u8>>, std BufReader, a drop-counting BufRead: dropped exactly once) then read again / moved / outlived by a schema clone / dropped; "
+                    "configs alive across other handles' drops; scoped threads "
                     "through one &Schema vs sequential (round trips, `{:?}` of the schema, messages of failing serializations), several Miri seeds; "
                     "`{:?}` of frozen schemas incl. cyclic ones (terminates, bounded, stable) and the same while another thread is parked inside a rendering; values kept after all schemas are dropped; enum symbols / field "
                     "names requested as &str) replayed natively and under Miri; native = Miri = model-predicted outcomes "
